@@ -6,7 +6,7 @@ import itertools
 from harness import layers, rules
 from harness.props import c13 as c13mod
 
-ARCH = [("A", "list", ["r.a"]), ("B", "str", "r.b"), ("C", "regex", r"r\.c.*")]
+ARCH = [("A", "list", ["r.a"]), ("B", "str", "r.b"), ("C", "regex", r"r\.c.*"), ("G", "regex", r"zz.*")]   # G: a regex layer matching nothing
 ARCH_PENDING = [("A", "list", ["r.a"]), ("P", "list", [])]
 
 LSYMS = {
@@ -14,13 +14,16 @@ LSYMS = {
     "NA": ("named", "A"), "NB": ("named", "B"), "NC": ("named", "C"),
     "NLAB": ("named_list", ["A", "B"]), "NLB": ("named_list", ["B"]),
     "NU": ("named", "U"),                       # layer that was never defined
+    "NLCG": ("named_list", ["C", "G"]),         # two regex layers, one of which matches no module
+    "NG": ("named", "G"),
     "SH": ("should",), "SO": ("should_only",), "SN": ("should_not",),
     "AC": ("access_layers_that",), "BA": ("be_accessed_by_layers_that",),
     "ACX": ("access_layers_except_layers_that",), "BAX": ("be_accessed_by_layers_except_layers_that",),
     "AA": ("access_any_layer",), "BAA": ("be_accessed_by_any_layer",),
 }
 CORE = ["BO", "LT", "NA", "NB", "NLB", "NU", "SH", "SN", "AC", "BAX", "AA"]
-DEFINED = {"A": True, "B": True, "C": True, "U": False}   # name -> defined (all defined layers here have modules)
+DEFINED = {"A": True, "B": True, "C": True, "U": False, "G": True}
+GHOST_SYMS = {"NLCG", "NG"}   # name -> defined (all defined layers here have modules)
 
 
 def py_layer_spec(hist) -> bool:
@@ -70,6 +73,25 @@ def py_layer_spec(hist) -> bool:
     return True
 
 
+def ghost_in_effect(hist) -> bool:
+    """Is a regex layer that matches no module the subject, or among the objects in effect (an 'any layer' rule has no object list)?"""
+    side, subj, obj, anything = None, None, None, False
+    for s in hist:
+        k = LSYMS[s][0]
+        if k == "layers_that":
+            side, subj, obj, anything = "S", None, None, False
+        elif k in ("named", "named_list"):
+            if side == "S":
+                subj = s
+            elif side == "O":
+                obj = s
+        elif k not in ("based_on", "should", "should_only", "should_not"):
+            side = "O"
+            if k.endswith("any_layer"):
+                anything = True
+    return subj in GHOST_SYMS or (not anything and obj in GHOST_SYMS)
+
+
 def run_layer_histories(ctx):
     hists = []
     maxlen = 5 if ctx.quick else 6
@@ -84,7 +106,8 @@ def run_layer_histories(ctx):
         h += [ctx.rng.choice(allsyms) for _ in range(k - len(h))]
         hists.append(tuple(h))
     chains = [["BO", "LT", "NA", "SH", "AC", "NB"], ["BO", "LT", "NA", "SN", "BAX", "NLAB"], ["BO", "LT", "NC", "SO", "AC", "NLB"],
-              ["BO", "LT", "NA", "SN", "AA"], ["BO", "LT", "NB", "SN", "BAA"], ["BO", "LT", "NA", "SO", "ACX", "NC"]]
+              ["BO", "LT", "NA", "SN", "AA"], ["BO", "LT", "NB", "SN", "BAA"], ["BO", "LT", "NA", "SO", "ACX", "NC"],
+              ["BO", "LT", "NA", "SH", "AC", "NLCG"], ["BO", "LT", "NG", "SN", "AC", "NB"]]
     for ch in chains:
         hists.append(tuple(ch))
         n = len(ch)
@@ -106,6 +129,9 @@ def run_layer_histories(ctx):
             case = dict(layer_history=list(h), impl=[io[0], io[1][:200]], model=[mo[0], str(mo[1])[:200]])
             if not acc and io[0] in ("PASS", "FAIL"):
                 ctx.violation(case, f"incomplete/contradictory LayerRule history {list(h)} produced the verdict {io[0]}", {"kind": "layer_history"})
+                continue
+            if acc and io[0] in ("PASS", "FAIL") and ghost_in_effect(h):
+                ctx.violation(case, f"LayerRule history {list(h)} names a regex layer that matches no module, yet produced the verdict {io[0]}", {"kind": "layer_no_match"})
                 continue
             if not layers.same_layer_outcome(io, mo):
                 ctx.disagreement(case, f"model and implementation differ on LayerRule history {list(h)}: impl={io[0]} model={mo[0]}")
